@@ -5,6 +5,26 @@
 #include <eigen3/Eigen/Sparse>
 #include <limits>
 
+#ifdef COLOQUINTE_VERIF
+// Verification call-out, compiled only with -DCOLOQUINTE_VERIF. It is invoked
+// at the start (phase 0) and at the end (phase 1) of
+// NetModel::solveWithPenalty so that a test harness can delay one of the two
+// concurrent x/y solves and force either completion order. The default does
+// nothing; a harness overrides it with a non-weak definition of the same name.
+extern "C" __attribute__((weak)) void coloquinte_verif_solve_hook(
+    const void * /*model*/, int /*phase*/) {}
+
+namespace {
+struct VerifSolveScope {
+  const void *model_;
+  explicit VerifSolveScope(const void *model) : model_(model) {
+    coloquinte_verif_solve_hook(model_, 0);
+  }
+  ~VerifSolveScope() { coloquinte_verif_solve_hook(model_, 1); }
+};
+}  // namespace
+#endif
+
 namespace coloquinte {
 NetModel::Parameters::Parameters() {
   netModel = NetModelOption::BoundToBound;
@@ -644,6 +664,9 @@ std::vector<float> NetModel::solveWithPenalty(
     const std::vector<float> &netPlacement,
     const std::vector<float> &placementTarget,
     const std::vector<float> &penaltyStrength, const Parameters &params) const {
+#ifdef COLOQUINTE_VERIF
+  VerifSolveScope verifSolveScope(this);
+#endif
   MatrixCreator builder = MatrixCreator::create(
       *this, netPlacement, params.approximationDistance, params.netModel);
   builder.addPenalty(netPlacement, placementTarget, penaltyStrength,
